@@ -115,6 +115,19 @@ fn num(op: &str, prefix: &str) -> Option<usize> {
 	op.strip_prefix(prefix).and_then(|s| s.parse().ok())
 }
 
+/// A value no schema accepts (a tuple struct of two units under a name no schema has): its
+/// serialization always fails, with a message that embeds the rendering of the schema node.
+struct ImpossibleValue;
+impl serde::Serialize for ImpossibleValue {
+	fn serialize<S: serde::Serializer>(&self, serializer: S) -> Result<S::Ok, S::Error> {
+		use serde::ser::SerializeTupleVariant;
+		let mut t = serializer.serialize_tuple_variant("NoSuchEnum", 7, "NoSuchVariant", 2)?;
+		t.serialize_field(&())?;
+		t.serialize_field(&())?;
+		t.end()
+	}
+}
+
 pub fn run_history(line: &str) -> String {
 	let mut handles: Vec<Option<(Arc<Schema>, usize)>> = vec![];
 	// the reader borrows the file bytes: keep them alive for the whole history
@@ -200,8 +213,29 @@ pub fn run_history(line: &str) -> String {
 				Some((s, k)) if *k < 100 => {
 					let seq = use_schema(s, *k);
 					let k = *k;
+					// what a thread observes of the schema includes its rendering (`{:?}`, which
+					// the serializer's error messages embed) and the text of an error
+					let observe_text = |s: &Arc<serde_avro_fast::Schema>| -> String {
+						let mut config = SerializerConfig::new(s);
+						let e = serde_avro_fast::to_datum_vec(&ImpossibleValue, &mut config).err().map(|e| e.to_string());
+						format!("{:?} | {:?}", s, e)
+					};
+					let seq_text = observe_text(s);
+					let iters = if cfg!(miri) { 3 } else { 150 };
 					let results: Vec<String> = std::thread::scope(|scope| {
-						let hs: Vec<_> = (0..3).map(|_| scope.spawn(|| use_schema(s, k))).collect();
+						let hs: Vec<_> = (0..3)
+							.map(|_| {
+								scope.spawn(|| {
+									let r = use_schema(s, k);
+									for _ in 0..iters {
+										if observe_text(s) != seq_text {
+											return "TEXT-DIFFERS".to_string();
+										}
+									}
+									r
+								})
+							})
+							.collect();
 						hs.into_iter().map(|h| h.join().expect("thread")).collect()
 					});
 					if results.iter().all(|r| *r == seq) {
